@@ -153,6 +153,20 @@ def r_c01_submillisecond(s4, repo, scratch):
             'cmd': '%s --color never %s %s' % (s4, a, b), 'expected': ' '.join(want), 'observed': ' '.join(got), 'failed': got != want}
 
 
+def r_c01_yearless_rollover_at_first_message(s4, repo, scratch):
+    """a log without years whose year rolls over between its FIRST and second message is merged in order with a log that has years"""
+    a = os.path.join(scratch, 'c01_yl_a.log'); b = os.path.join(scratch, 'c01_yl_b.log')
+    open(a, 'w').write('Dec 31 23:59:58 hostA app[1]: A1 old year\nJan  1 00:00:01 hostA app[1]: A2 new year\nJan  1 00:00:02 hostA app[1]: A3 new year\n')
+    open(b, 'w').write('2024-01-01 00:00:00 +0000 hostB B1 hello\n2024-01-01 00:00:03 +0000 hostB B2 hello\n')
+    mt = 1704110400  # 2024-01-01 12:00:00 UTC
+    os.utime(a, (mt, mt)); os.utime(b, (mt, mt))
+    rc, out, err = run_s4(s4, ['--color', 'never', '-t', '+00:00', a, b])
+    got = [w.decode() for l in out.split(b'\n') if l.strip() for w in l.split() if re.fullmatch(rb'[AB][0-9]', w)]
+    want = ['A1', 'B1', 'A2', 'A3', 'B2']
+    return {'name': 'C01.yearless_rollover_at_first_message', 'input': a, 'how_made': 'three syslog lines without a year (Dec 31, Jan 1, Jan 1; file mtime 2024-01-01 12:00 UTC) and a log with explicit 2024-01-01 stamps',
+            'cmd': '%s --color never -t +00:00 %s %s' % (s4, a, b), 'expected': ' '.join(want), 'observed': ' '.join(got), 'failed': got != want}
+
+
 def r_c03_evtx_window(s4, repo, scratch):
     """an event log stored out of order: every record with creation time <= B is printed under --dt-before B"""
     f = os.path.join(repo, 'logs/programs/evtx/Microsoft-Windows-Kernel-PnP%4Configuration.evtx')
@@ -425,7 +439,7 @@ RECIPES = {
     'C02': [r_c02_continuation_at_block_boundary, r_c02_mixed_notation_first_message],
     'C04': [r_c04_instants, r_c04_fractions, r_c04_month_abbreviation_with_dot],
     'C10': [r_c03_evtx_window],
-    'C01': [r_c01_tie_order, r_c01_chronological, r_c01_submillisecond],
+    'C01': [r_c01_tie_order, r_c01_chronological, r_c01_submillisecond, r_c01_yearless_rollover_at_first_message],
     'C06': [r_c01_tie_order, r_c01_chronological, r_c01_submillisecond],
     'C13': [r_c13_field_order_fixedstruct, r_c13_align_widest_printed, r_c13_evtx_prepend_file_only, r_c13_prependdate_lines_in_parts],
     'C03': [r_c03_journal_before_inclusive, r_c03_evtx_window, r_c03_yearless_tie_at_after],
